@@ -17,6 +17,7 @@ From Coq Require Import Permutation.
 From GT Require Import Base.GoStr Md.Parser Tree.Tree Spec.Spec Spec.Classify Spec.Spelling Conc.Splitter Proofs.GenItems Proofs.SpelledTop
   Proofs.SplitSchedule Proofs.MassiveFront Proofs.MassiveText.
 From GT Require Import Conc.Pipeline Conc.Instance Conc.InstanceCheck Proofs.PipeBlocks Proofs.PipeNoLeak Proofs.PipeComplete.
+From GT Require Import Tree.Grower Out.Spreader Out.Walker Api.Simple Fs.FsModel Fs.Mkdir Fs.Verify Proofs.TreeInd Proofs.GrowRender Proofs.BuildTrie Proofs.Paths Proofs.Programmable Proofs.Walk Proofs.FsBasic Proofs.MkdirExact Proofs.VerifyExact Proofs.RootOrder.
 Import ListNotations.
 
 (* whatever the schedule: the log of the locking sink is a concatenation of complete blocks of
@@ -120,6 +121,43 @@ Theorem C10_front_end : forall sp f,
       Permutation (roots_of (map (fun j => block_result j (run_sched p0 sched)) order)) (map trie_of f).
 Proof. exact massive_front_end. Qed.
 Print Assumptions C10_front_end.
+
+(* THE ORDER OF ROOTS IS IRRELEVANT to the sequential semantics of every operation: for every
+   permutation of the roots (= every completion order of massive mode's per-root work), verify gives
+   nil iff the sequential order does and otherwise reports exactly some differing root; mkdir (in the
+   success case of C06) succeeds with the same file system as a finite map; the walk's per-root visit
+   blocks and the text's per-root blocks are permutations of the sequential ones, each intact.
+   (On a failing mkdir the partial result does depend on the order: RootOrder.mkdir_failure_depends_on_order;
+   that is K3's territory.) *)
+Theorem C10_root_order_irrelevant : forall bf exts tc ts ts' f,
+  Permutation ts ts' ->
+  let gs := map (grow_root bf) ts in
+  let gs' := map (grow_root bf) ts' in
+  (forall strict target fv,
+     (verifier strict target fv gs' = Ok tt <-> verifier strict target fv gs = Ok tt) /\
+     (forall e m, verifier strict target fv gs' = Err (EVerify e m) ->
+        exists g, In g gs /\ verify_root strict target fv g = VFail e m) /\
+     (verifier strict target fv gs' = Err EOs ->
+        exists g, In g gs /\ verify_root strict target fv g = VErr)) /\
+  (eok tc -> acc tc ->
+   Forall (fun t => Forall name_ok (tnames t)) ts -> all_nodup ts -> NoDup (map tname ts) ->
+   fs_ok f ->
+   (forall t, In t ts -> stat f (tjoin (pth tc) (tname t)) = StNone) ->
+   exists f1 f2,
+     mkdirer exts (dir_of tc) f gs = (f1, Ok tt) /\
+     mkdirer exts (dir_of tc) f gs' = (f2, Ok tt) /\
+     (forall p, lookup p f1 = lookup p f2) /\
+     (forall p, In p (map fst f1) <-> In p (map fst f2)) /\
+     Permutation f1 f2 /\
+     fs_ok f1 /\ fs_ok f2 /\
+     (forall strict, verifier strict (pth tc) f2 gs = Ok tt) /\
+     (forall strict, verifier strict (pth tc) f1 gs' = Ok tt)) /\
+  (visits_of gs' = concat (map (fun g => visits_of [g]) gs') /\
+   Permutation (map (fun g => visits_of [g]) gs') (map (fun g => visits_of [g]) gs)) /\
+  (render bf ts' = concat (map (render_root bf) ts') /\
+   Permutation (map (render_root bf) ts') (map (render_root bf) ts)).
+Proof. exact root_order_irrelevant. Qed.
+Print Assumptions C10_root_order_irrelevant.
 
 (* THE TWO LAYERS COMPOSED, down to the text: for every heading-free spelling of a forest,
    every interleaving of the generate workers' parse calls, and every schedule of a pipeline
